@@ -28,6 +28,8 @@ STAGES = {
     "C15": [S("e_seq", "asu", 12000, 400000)],
     "C03": [S("e_tbb", "asu", 9000, 300000), S("e_tbb", "tsan", 4000, 120000, gate=False)],
     "C20": [S("e_tbb", "asu", 4000, 60000)],
+    "C04": [S("e_mpi", "asu", 8000, 250000)],
+    "C08": [S("e_mpi", "asu", 3000, 60000), S("e_mpi", "plain", 0, 400, tier_arg="big", gate=False)],
 }
 
 # classes that belong to C07 whatever workload found them
@@ -105,7 +107,7 @@ class Worker:
 
     def launch(self, frm):
         self.segments += 1
-        cmd = [binary(self.stage), "--prop", self.prop, "--tier", self.tier, "--seed", str(self.seed), "--from", str(frm), "--to", str(self.to),
+        cmd = [binary(self.stage), "--prop", self.prop, "--tier", self.stage.get("tier_arg") or self.tier, "--seed", str(self.seed), "--from", str(frm), "--to", str(self.to),
                "--stride", str(self.stride), "--dir", self.rundir, "--id", str(self.wid), "--wall", str(self.wall)]
         env = dict(os.environ); env.update(SAN_ENV)
         self.fo = open(self.out, "ab"); self.fe = open(self.err, "ab")
@@ -142,6 +144,7 @@ def run_stage(stage, prop, tier, seed, rundir, nworkers=None):
     """fan out; returns (results list, crash list, wall seconds)"""
     n = stage[tier]
     sprop = stage["prop"] or prop
+    if n <= 0: return [], [], 0.0, 0, []
     k = nworkers or NWORKERS
     k = max(1, min(k, n))
     wall = float(os.environ.get("VERIF_WALL", "150" if tier == "quick" else "3000"))
@@ -235,6 +238,7 @@ def check_property(prop, tier, seed, stages=None, extra_cov=None, class_filter=N
     """generic check: returns exit code"""
     t_start = time.time()
     stages = stages or STAGES[prop]
+    stages = [s for s in stages if s[tier] > 0]
     bt = build([target(s) for s in stages])
     rundir = os.path.join(BUILD, "run", "%s-%s-%d" % (prop, tier, os.getpid()))
     shutil.rmtree(rundir, ignore_errors=True)
